@@ -152,6 +152,90 @@ pub fn approx_symmetry_count(cell: &Cell, tol: f64) -> usize {
     count
 }
 
+/// minimal-image Cartesian vector of the fractional difference `d`
+fn frac_vec(cellb: &Matrix3<f64>, d: &Vector3<f64>) -> Vector3<f64> {
+    let d = d.map(|e| e - e.round());
+    let mut best = cellb * d;
+    for i in -1..=1 {
+        for j in -1..=1 {
+            for k in -1..=1 {
+                let v = cellb * (d + Vector3::new(i as f64, j as f64, k as f64));
+                if v.norm() < best.norm() {
+                    best = v;
+                }
+            }
+        }
+    }
+    best
+}
+
+/// Residual profile of the approximate symmetry operations of a (displaced) crystal, by brute force and
+/// independent of moyo: for every metric-preserving integer matrix with entries in {-1,0,1} and every
+/// translation carrying the first atom of the rarest species onto an atom of that species, the atoms are
+/// matched to the nearest atom of their species within `match_radius`; with a_i the residual vectors,
+/// returns (max_i |a_i - mean a|, max_ij |a_i - a_j|): the best-fit residual and the largest residual any
+/// choice of pivot atom can see.  Premise validation of the distorted metamorphic pairs (C04).
+pub fn residual_profile(cell: &Cell, match_radius: f64) -> Vec<(f64, f64)> {
+    let a = cell.lattice.basis;
+    let g = a.transpose() * a;
+    let gscale = g.iter().fold(0.0f64, |m, x| m.max(x.abs()));
+    let mut counts: std::collections::BTreeMap<i32, usize> = std::collections::BTreeMap::new();
+    for n in cell.numbers.iter() {
+        *counts.entry(*n).or_insert(0) += 1;
+    }
+    let pivot_sp = *counts.iter().min_by_key(|(_, c)| **c).unwrap().0;
+    let pivots: Vec<usize> = (0..cell.num_atoms()).filter(|&i| cell.numbers[i] == pivot_sp).collect();
+    let src = pivots[0];
+    let n = cell.num_atoms();
+    let mut out = vec![];
+    for idx in 0..19683u32 {
+        let mut x = idx;
+        let mut r = Matrix3::<f64>::zeros();
+        for k in 0..9 {
+            r[(k / 3, k % 3)] = (x % 3) as f64 - 1.0;
+            x /= 3;
+        }
+        if (r.determinant().abs() - 1.0).abs() > 1e-9 {
+            continue;
+        }
+        let g2 = r.transpose() * g * r;
+        if (g2 - g).iter().fold(0.0f64, |m, x| m.max(x.abs())) > 1e-6 * gscale {
+            continue;
+        }
+        'dst: for &dst in pivots.iter() {
+            let t = cell.positions[dst] - r * cell.positions[src];
+            let mut res: Vec<Vector3<f64>> = Vec::with_capacity(n);
+            for i in 0..n {
+                let y = r * cell.positions[i] + t;
+                let mut found = None;
+                for j in 0..n {
+                    if cell.numbers[j] == cell.numbers[i] {
+                        let v = frac_vec(&a, &(y - cell.positions[j]));
+                        if v.norm() < match_radius {
+                            found = Some(v);
+                            break;
+                        }
+                    }
+                }
+                match found {
+                    Some(v) => res.push(v),
+                    None => continue 'dst,
+                }
+            }
+            let mean = res.iter().fold(Vector3::zeros(), |m, v| m + v) / (n as f64);
+            let refined = res.iter().map(|v| (v - mean).norm()).fold(0.0, f64::max);
+            let mut pair = 0.0f64;
+            for i in 0..n {
+                for j in 0..i {
+                    pair = pair.max((res[i] - res[j]).norm());
+                }
+            }
+            out.push((refined, pair));
+        }
+    }
+    out
+}
+
 /// Generic crystal of Hall setting `h`: `norb` species, each on one generic orbit.  The premise
 /// "no approximate symmetry beyond the generating group within `gap`" is validated by brute force.
 pub fn crystal_gap(h: i32, rng: &mut Rng, norb: usize, gap: f64) -> Crystal {
@@ -449,6 +533,26 @@ impl Crystal {
             *p += Vector3::new(rng.range(-2, 2) as f64, rng.range(-2, 2) as f64, rng.range(-2, 2) as f64);
         }
         c.truth.steps.push("addint".into());
+        c
+    }
+
+    /// displace a fraction `frac` of the atoms by a random vector of length in [lo, hi] (Cartesian); the lattice is kept
+    pub fn noise_atoms(&self, rng: &mut Rng, lo: f64, hi: f64, frac: f64) -> Crystal {
+        let mut c = self.clone();
+        let inv = self.cell.lattice.basis.try_inverse().unwrap();
+        for p in c.cell.positions.iter_mut() {
+            if !rng.chance(frac) {
+                continue;
+            }
+            let v = loop {
+                let v = Vector3::new(rng.normal(), rng.normal(), rng.normal());
+                if v.norm() > 1e-3 {
+                    break v / v.norm();
+                }
+            };
+            *p += inv * (v * rng.uniform(lo, hi));
+        }
+        c.truth.noisy = true;
         c
     }
 
